@@ -158,6 +158,8 @@ package fosite
 //@ ghost tx_begun     : int
 //@ ghost tx_committed : int
 //@ ghost tx_rolledback : int
+//@ ghost tx_commit_calls   : int          // attempts, successful or not
+//@ ghost tx_rollback_calls : int
 //@ ghost snap_code_active : map[string]bool
 //@ ghost snap_acc_exists  : map[string]bool
 //@ ghost snap_ref_exists  : map[string]bool
